@@ -187,6 +187,15 @@ def any_decls(tier='quick') -> List[Decl]:
     out.append(mk('any_point_custom', 'any', 'Point', sanitizers=[Sanitizer('with', s)], custom_validation=v, custom_error='MyErr',
                   aux=['Point', sn, vn, 'MyErr'], derives=view + ['TryFrom'], props=['C01', 'C03', 'C05', 'C07', 'C13']))
     out.append(mk('any_point_nothing', 'any', 'Point', aux=['Point'], derives=view + ['From'], props=['C01', 'C03', 'C05', 'C13']))
+    # tuple and Option inner types
+    for nm, ty in (('pair', '(i32, u8)'), ('opt', 'Option<i64>')):
+        pp, ppn = aux.custom('pred', nm)
+        sp, spn = aux.custom('san', nm)
+        out.append(mk('any_%s_san_pred' % nm, 'any', ty, sanitizers=[Sanitizer('with', sp)], validators=[Validator('predicate', fn=pp)],
+                      aux=[ppn, spn], derives=['Debug', 'Clone', 'Copy', 'PartialEq', 'AsRef', 'Deref', 'Borrow', 'Into', 'TryFrom'],
+                      props=['C01', 'C03', 'C05', 'C07', 'C13']))
+        out.append(mk('any_%s_san_nov' % nm, 'any', ty, sanitizers=[Sanitizer('with', sp)], aux=[spn],
+                      derives=['Debug', 'Clone', 'Copy', 'PartialEq', 'AsRef', 'Deref', 'Into', 'From'], props=['C01', 'C03', 'C05', 'C13']))
     # generic Vec<T>
     pv, pvn = aux.custom('pred', 'vec')
     sv, svn = aux.custom('san', 'vec')
